@@ -804,7 +804,11 @@ fn cmd_run(cfg: &Cfg) -> i32 {
             },
             Err(e) => {
                 eprintln!("harness error (rustc tier): {}", e);
-                return 2;
+                // never let a harness problem hide a violation that was already found
+                if exit == 0 {
+                    return 2;
+                }
+                rustc_tier_json = json!({"ran": false, "harness_error": e});
             },
         }
     }
@@ -864,7 +868,7 @@ fn cmd_run(cfg: &Cfg) -> i32 {
             "components": {
                 "real": ["o2o-impl parse/validate/expand built from the working tree (plain build: guard off = shipped code; hooked build: --cfg o2o_verif)", "syn 1.0.109 / syn 2.x, quote, proc-macro2 (fallback mode, span-locations)", "std::collections::HashMap + RandomState/SipHash (plain build)", "glibc malloc, real threads"],
                 "simulated": ["OS entropy (getrandom)", "wall/monotonic clock", "pid", "environment block", "cwd", "argv", "address-space layout (ASLR off + seeded heap perturbation + env size)", "thread placement and order of expansions", "container hash seeds and iteration order policy (hooked build)"],
-                "rustc_tier": "real cargo + rustc + o2o-macros dylib under the same shim (thorough tier)",
+                "rustc_tier": "real cargo + rustc + o2o-macros dylib under the shim (quick: one back-end, 3 runs per crate; thorough: both back-ends, 8 runs per crate)",
             },
             "harness_determinism_guard": {"worlds_executed_twice": guard_worlds, "result": guard_note},
             "aslr_disabled_for_hosts": env.aslr_off,
@@ -993,7 +997,7 @@ fn main() {
         cfg.worlds = if cfg.tier == "thorough" { env_or("SIM_THOROUGH_WORLDS", "40000").parse().unwrap_or(40000) } else { 1500 };
     }
     cfg.wall_cap_s = if cfg.tier == "thorough" { env_or("SIM_WALL_CAP_S", "900").parse().unwrap_or(900) } else { 150 };
-    if cfg.tier == "thorough" && !args.iter().any(|a| a == "--no-rustc-tier") {
+    if !args.iter().any(|a| a == "--no-rustc-tier") {
         cfg.rustc_tier = true;
     }
     if cfg.evidence.as_os_str().is_empty() {
@@ -1009,6 +1013,13 @@ fn main() {
             },
         },
         "selftest" => cmd_selftest(&cfg),
+        "rustc-tier-prepare" => match rustc_tier::prepare(&cfg) {
+            Ok(()) => 0,
+            Err(e) => {
+                eprintln!("harness error (rustc tier prepare): {}", e);
+                2
+            },
+        },
         "rustc-tier" => match rustc_tier::run(&cfg, &corpus::load(&cfg.repo)) {
             Ok(r) => {
                 println!("{}", serde_json::to_string_pretty(&r.json).unwrap());
